@@ -663,6 +663,11 @@ class Interp:
             return zu.bytes_lit(v)
         if isinstance(v, str):
             return z3.StringVal(v)
+        if type(v).__name__ == "StrParts":
+            from .prims import ufun
+            f = ufun("str_of_int", zu.IntS, zu.StrS)
+            ts = [z3.StringVal(p) if isinstance(p, str) else (f(p.t) if p.ty == "int" else p.t) for p in v.parts]
+            return ts[0] if len(ts) == 1 else z3.Concat(*ts)
         if isinstance(v, (tuple, NT)):
             items = v.items if isinstance(v, NT) else v
             tys = tuple(self.type_of(x) for x in items) if ty is None else ty[1]
@@ -701,7 +706,7 @@ class Interp:
             return "real"
         if isinstance(v, bytes):
             return "bytes"
-        if isinstance(v, str):
+        if isinstance(v, str) or type(v).__name__ == "StrParts":
             return "str"
         if isinstance(v, tuple):
             return ("tuple", tuple(self.type_of(x) for x in v))
